@@ -192,6 +192,7 @@ class Case:
     uses: List[Use]
     bad: Optional[Use] = None
     excluded: int = 0  # drawn reference texts that fell under the excluded-by-rule class (replaced)
+    excluded_seen: int = 0  # (slot, candidate text) pairs classified as excluded-by-rule (never written)
     width_of: Dict[int, int] = field(default_factory=dict)
 
 
@@ -553,6 +554,7 @@ def fill_slots(draw: Any, unit: Unit, slots: List[Use], want_bad: bool, foreign_
             o, tgt = resolve(site, t, want)
             classified[o].append((t, tgt))
         cnt = counts[id(f)]
+        case.excluded_seen += len(classified["excluded"])
         ok = classified["ok"]
         if not foreign_nested:
             ok = [x for x in ok if not _foreign_shape(f, x[0], x[1])]
